@@ -1216,7 +1216,8 @@ Definition cr_quiet (j : instr) : Prop :=
 
 Lemma cr_triv : forall st st' m t pre r new ev,
   CRel PNone st m ->
-  (forall u, tcur (thr st' u) = tcur (thr st u)) -> (forall u, tret (thr st' u) = tret (thr st u)) ->
+  (forall u, tcur (thr st' u) = tcur (thr st u)) ->
+  (forall u, (exists c x, tcur (thr st u) = Some (CSend c x)) \/ (exists c, tcur (thr st u) = Some (CClosed c)) -> tret (thr st' u) = tret (thr st u)) ->
   (forall u, u <> t -> tcont (thr st' u) = tcont (thr st u)) ->
   tcont (thr st t) = pre ++ r -> tcont (thr st' t) = new ++ r ->
   (forall c, copen (chs st' c) = copen (chs st c) /\ cq (chs st' c) = cq (chs st c) /\ cexists (chs st' c) = cexists (chs st c)) ->
@@ -1239,8 +1240,8 @@ Proof.
   - intros c. destruct (Hch c) as [A _]. rewrite A. auto.
   - intros c E1 E2. destruct (Hch c) as [A _]. congruence.
   - exact Hcur.
-  - intros u c x _. rewrite Hret. auto.
-  - intros u c b _. rewrite Hret. auto.
+  - intros u c x Hu. rewrite Hret by (left; eauto). auto.
+  - intros u c b Hu. rewrite Hret by (right; eauto). auto.
   - intros u m0 c _ Hin. left. exists m0. destruct (Nat.eq_dec u t) as [->|Hu]; [|rewrite (Ho u Hu); exact Hin].
     rewrite Hc in Hin. rewrite Hc'. apply in_app_or in Hin. destruct Hin as [Hin|Hin]; [exfalso; eapply (proj2 (Hpre _ Hin)); eauto|].
     apply in_or_app. auto.
@@ -1289,7 +1290,7 @@ Ltac cr_new := let j := fresh "j" in let Hj := fresh "Hj" in
   intros j Hj; in_cases Hj; (split; [intro; reflexivity|intros; discriminate]).
 Ltac crt st t i r new :=
   apply (cr_triv st _ _ t [i] r new);
-  [ assumption | thr_simpl | thr_simpl | thr_simpl | eassumption | thr_simpl | cr_chs | cr_pl | cr_new | cr_new
+  [ assumption | thr_simpl | (let u := fresh in intros u _; thr_simpl) | thr_simpl | eassumption | thr_simpl | cr_chs | cr_pl | cr_new | cr_new
   | let Hu := fresh in intros ? ? ? Hu ?; exfalso;
     match goal with Hcc : forall c, tcur (thr st t) <> Some (CClosed c) |- _ => exact (Hcc _ Hu) end ].
 
@@ -1915,7 +1916,7 @@ Proof.
       destruct (Nat.eqb_spec u t); subst; rewrite ?Nat.eqb_refl; cbn; repeat split; reflexivity. }
     apply (cr_triv st st' _ t [ILeaves bm (z :: ls)] r [ILeaves bm ls]); auto.
     + intro u. apply Hth.
-    + intro u. apply Hth.
+    + intros u _. apply Hth.
     + intros u Hu. destruct (Hth u) as [A _]. rewrite A. destruct (Nat.eqb_spec u t); [congruence|reflexivity].
     + destruct (Hth t) as [A _]. rewrite A, Nat.eqb_refl. reflexivity.
     + intro c0. unfold st'. cbn. rewrite A6. cbn. repeat split; reflexivity.
@@ -2150,4 +2151,197 @@ Proof.
     + intros; discriminate.
     + intros c1 E. inversion E; subst c1. split; [reflexivity|]. cbn. eauto.
     + intros c1 E. inversion E. reflexivity.
+Qed.
+
+Lemma accs_nil : forall p st m c, CRel p st m -> cexists (chs st c) = false -> accs m c = [] /\ fwds m c = [].
+Proof.
+  intros p st m c R Ex. split.
+  - rewrite accs_eq. replace (flat_map (accf c) (m13_acc m)) with (@nil Z); [reflexivity|]. symmetry. apply flat_map_nil.
+    intros [u [c' x]] Hin. unfold accf. cbn. destruct (Z.eqb_spec c' c) as [->|]; [|reflexivity].
+    rewrite (r_ex_acc p st m R u c x Hin) in Ex. discriminate.
+  - rewrite fwds_eq. replace (flat_map (fwdf c) (m13_fwd m)) with (@nil Z); [reflexivity|]. symmetry. apply flat_map_nil.
+    intros [c' x] Hin. unfold fwdf. cbn. destruct (Z.eqb_spec c' c) as [->|]; [|reflexivity].
+    rewrite (r_ex_fwd p st m R c x Hin) in Ex. discriminate.
+Qed.
+
+(** Channel::new *)
+Lemma cr_cnew : forall st m t c0 wi,
+  CRel PNone st m -> cexists (chs st c0) = false -> tcont (thr st t) = [] -> t = main ->
+  (forall c x, tcur (thr st t) <> Some (CSend c x)) -> (forall c, tcur (thr st t) <> Some (CClosed c)) ->
+  (forall c, tcur (thr st t) <> Some (CCDrop c)) ->
+  CRel PNone (set_cont (set_chan st c0 (mkChan true false false true [] wi)) t [ILock (MCh c0) (LChInit c0)]) m.
+Proof.
+  intros st m t c0 wi R Ex Hk Tm N1 N2 N3.
+  set (st' := set_cont (set_chan st c0 (mkChan true false false true [] wi)) t [ILock (MCh c0) (LChInit c0)]).
+  assert (Ch : forall c, chs st' c = if c =? c0 then mkChan true false false true [] wi else chs st c).
+  { intro c. unfold st'. cbn. unfold updZ. reflexivity. }
+  assert (Cu : forall u, tcur (thr st' u) = tcur (thr st u)) by (unfold st'; thr_simpl).
+  assert (Re : forall u, tret (thr st' u) = tret (thr st u)) by (unfold st'; thr_simpl).
+  assert (Co : forall u, u <> t -> tcont (thr st' u) = tcont (thr st u)) by (unfold st'; thr_simpl).
+  assert (Tr : forall c, transit st' c = transit st c).
+  { intro c. unfold transit. destruct (Nat.eq_dec main t) as [E|E]; [|rewrite (Co main E); reflexivity].
+    rewrite E, Hk. unfold st'. cbn. unfold updN, th. rewrite Nat.eqb_refl. reflexivity. }
+  assert (Old : forall c, c <> c0 -> chs st' c = chs st c) by (intros c N; rewrite Ch; destruct (Z.eqb_spec c c0); [congruence|reflexivity]).
+  assert (Exm : forall c, cexists (chs st c) = true -> c <> c0) by (intros c E1 E2; subst; congruence).
+  assert (Keep : forall c, copen (chs st c) = false /\ cexists (chs st c) = true -> copen (chs st' c) = false /\ cexists (chs st' c) = true).
+  { intros c [A B]. rewrite (Old c (Exm c B)). auto. }
+  constructor.
+  - apply (r_bad _ st m R).
+  - intros c. rewrite Ch, Tr. destruct (Z.eqb_spec c c0) as [->|N]; cbn.
+    + intros _. destruct (accs_nil _ st m c0 R Ex) as [A B]. rewrite A, B.
+      assert (T0 : transit st c0 = []) by (unfold transit; rewrite <- Tm, Hk; reflexivity).
+      rewrite T0. reflexivity.
+    + apply (r_open _ st m R c).
+  - intros c H. apply Keep. apply (r_done _ st m R c H).
+  - intros c. rewrite Ch. destruct (Z.eqb_spec c c0) as [->|N]; cbn; [discriminate|]. apply (r_begun _ st m R c).
+  - intros u c x H. pose proof (r_ex_acc _ st m R u c x H) as E. rewrite (Old c (Exm c E)). exact E.
+  - intros c x H. pose proof (r_ex_fwd _ st m R c x H) as E. rewrite (Old c (Exm c E)). exact E.
+  - apply (r_acc_sent _ st m R).
+  - apply (r_acc_nd _ st m R).
+  - intros u l H. destruct (r_late_dom _ st m R u l H) as [c X]. exists c. rewrite Cu. exact X.
+  - apply (r_late_nd _ st m R).
+  - intros u c x. rewrite Cu, Re. intro Hu. destruct (r_send _ st m R u c x Hu) as [[l [l1 [l2 [S1 [S2 [S3 S4]]]]]] [S5 S6]].
+    split; [exists l, l1, l2; split; [exact S1|split; [exact S2|split; [exact S3|intro Hl; apply Keep; apply S4; exact Hl]]]|auto].
+  - intros u c x H. discriminate H.
+  - intros u c. rewrite Cu, Re. intro Hu. assert (Nu : u <> t) by (intro E; subst u; exact (N2 _ Hu)). rewrite (Co u Nu).
+    destruct (r_closedcmd _ st m R u c Hu) as [l [L1 [L2 L3]]]. exists l. split; [exact L1|]. split; [intro Hl; apply Keep; apply L2; exact Hl|exact L3].
+  - intros u c. rewrite Cu. intro Hu. assert (Nu : u <> t) by (intro E; subst u; exact (N3 _ Hu)). rewrite (Co u Nu).
+    destruct (r_dropcmd _ st m R u c Hu) as [[D _]|[D1 [D2 [D3 D4]]]]; [discriminate D|]. right.
+    rewrite (Old c (Exm c D3)). auto.
+  - intros u c H. discriminate H.
+  - apply (r_ord _ st m R).
+Qed.
+
+Lemma memZ_cons : forall c a l, memZ c l = true -> memZ c (a :: l) = true.
+Proof. intros c a l H. unfold memZ in *. cbn. rewrite H. apply orb_true_r. Qed.
+
+(** the drop of the guard goes ahead *)
+Lemma cr_undrop : forall st m t c0,
+  CRel (PBadDrop t c0) st m -> cexists (chs st c0) = true -> t = main ->
+  let x := chs st c0 in
+  CRel PNone (set_cont (set_chan st c0 (mkChan (cexists x) (Waker.creg x) false (copen x) (cq x) (cw x))) t [ILock (MCh c0) (LChClose c0)]) m.
+Proof.
+  intros st m t c0 R Ex Tm x.
+  destruct (r_pbad _ st m R t c0 eq_refl) as [Hu Hk].
+  destruct (r_dropcmd _ st m R t c0 Hu) as [[_ [old Eold]]|[D _]]; [|congruence].
+  set (st' := set_cont (set_chan st c0 (mkChan (cexists x) (Waker.creg x) false (copen x) (cq x) (cw x))) t [ILock (MCh c0) (LChClose c0)]).
+  assert (Ch : forall c, copen (chs st' c) = copen (chs st c) /\ cq (chs st' c) = cq (chs st c) /\ cexists (chs st' c) = cexists (chs st c)).
+  { intro c. unfold st', x. cbn. unfold updZ. destruct (Z.eqb_spec c c0); subst; cbn; auto. }
+  assert (Cu : forall u, tcur (thr st' u) = tcur (thr st u)) by (unfold st'; thr_simpl).
+  assert (Re : forall u, tret (thr st' u) = tret (thr st u)) by (unfold st'; thr_simpl).
+  assert (Co : forall u, u <> t -> tcont (thr st' u) = tcont (thr st u)) by (unfold st'; thr_simpl).
+  assert (Ct : tcont (thr st' t) = [ILock (MCh c0) (LChClose c0)]) by (unfold st'; thr_simpl).
+  assert (Tr : forall c, transit st' c = transit st c).
+  { intro c. unfold transit. rewrite <- Tm, Ct, Hk. reflexivity. }
+  assert (Bg : forall c, memZ c (begun_of (PBadDrop t c0) m) = true -> memZ c (m13_cbegun m) = true).
+  { intros c H. cbn [begun_of] in H. rewrite Eold in *. cbn [tl] in H. apply memZ_cons. exact H. }
+  assert (Keep : forall c, copen (chs st c) = false /\ cexists (chs st c) = true -> copen (chs st' c) = false /\ cexists (chs st' c) = true).
+  { intros c [A B]. destruct (Ch c) as [X [_ Z]]. rewrite X, Z. auto. }
+  constructor.
+  - apply (r_bad _ st m R).
+  - intros c. destruct (Ch c) as [A [B _]]. rewrite A, B, Tr. intro Ho. pose proof (r_open _ st m R c Ho) as E. cbn [pendm] in *. exact E.
+  - intros c H. apply Keep. apply (r_done _ st m R c H).
+  - intros c. destruct (Ch c) as [A [_ C]]. rewrite A, C. intros E1 E2. cbn [begun_of]. apply Bg. apply (r_begun _ st m R c E1 E2).
+  - intros u c y. destruct (Ch c) as [_ [_ C]]. rewrite C. apply (r_ex_acc _ st m R).
+  - intros c y. destruct (Ch c) as [_ [_ C]]. rewrite C. apply (r_ex_fwd _ st m R).
+  - apply (r_acc_sent _ st m R).
+  - apply (r_acc_nd _ st m R).
+  - intros u l H. destruct (r_late_dom _ st m R u l H) as [c X]. exists c. rewrite Cu. exact X.
+  - apply (r_late_nd _ st m R).
+  - intros u c y. rewrite Cu, Re. intro Hu1. destruct (r_send _ st m R u c y Hu1) as [[l [l1 [l2 [S1 [S2 [S3 S4]]]]]] [S5 S6]].
+    split; [exists l, l1, l2; split; [exact S1|split; [exact S2|split; [exact S3|intro Hl; apply Keep; apply S4; exact Hl]]]|].
+    split; [exact S5|]. intro Hr. discriminate (S6 Hr).
+  - intros u c y H. discriminate H.
+  - intros u c. rewrite Cu, Re. intro Hu1. assert (Nu : u <> t) by (intro E; subst u; congruence). rewrite (Co u Nu).
+    destruct (r_closedcmd _ st m R u c Hu1) as [l [L1 [L2 L3]]]. exists l. split; [exact L1|]. split; [intro Hl; apply Keep; apply L2; exact Hl|exact L3].
+  - intros u c. rewrite Cu. intro Hu1. right. split; [discriminate|]. destruct (Ch c) as [A [_ C]]. rewrite A, C.
+    destruct (Nat.eq_dec u t) as [->|Nu].
+    + rewrite Hu in Hu1. inversion Hu1; subst c. split; [cbn [begun_of]; rewrite Eold; cbn; rewrite Z.eqb_refl; reflexivity|].
+      split; [exact Ex|]. left. exists (MCh c0). rewrite Ct. left. reflexivity.
+    + rewrite (Co u Nu). destruct (r_dropcmd _ st m R u c Hu1) as [[D _]|[_ [D2 [D3 D4]]]]; [inversion D; congruence|].
+      split; [apply Bg; exact D2|]. split; [exact D3|exact D4].
+  - intros u c H. discriminate H.
+  - apply (r_ord _ st m R).
+Qed.
+
+Definition pend_begin (t : tid) (c : cmd) (done : option retv) : pend :=
+  match c, done with CCDrop c0, Some _ => PBadDrop t c0 | _, _ => PNone end.
+
+Ltac crb st t new :=
+  apply (cr_triv st _ _ t (@nil instr) (@nil instr) new);
+  [ assumption | thr_simpl
+  | (let u := fresh in let Hu := fresh in intros u Hu; destruct (Nat.eq_dec u t) as [->|]; [destruct Hu as [[? [? Hu]]|[? Hu]]; first [congruence|thr_simpl]|thr_simpl])
+  | thr_simpl | eassumption | thr_simpl | cr_chs | cr_pl | intros ? [] | cr_new
+  | let Hu := fresh in let Hin := fresh in intros ? ? ? Hu Hin;
+    first [congruence | cbn in Hin; repeat (destruct Hin as [Hin|Hin]; [discriminate Hin|]); contradiction] ].
+
+Lemma begin_cmd_C : forall st ms t c st' ev done,
+  ShInv st -> pristine st -> UInv st -> CRel (pend_install t c) st ms -> (t < nthr st)%nat ->
+  tcont (thr st t) = [] -> tcur (thr st t) = Some c ->
+  begin_cmd st t c = (st', ev, done) ->
+  CRel (pend_begin t c done) st' (fold_left m13_step (evs t ev) ms).
+Proof.
+  intros st ms t c st' ev done S P U R Ht Hc Hcur H.
+  assert (Hc0 : tcont (thr st t) = [] ++ []) by exact Hc.
+  assert (Same : forall p0 e0, (forall e, In e e0 -> c13_plain e) -> CRel p0 st ms -> CRel p0 st (fold_left m13_step (evs t e0) ms)).
+  { intros p0 e0 He R0. eapply cr_msame; [exact R0|apply m13_plain_fold; exact He]. }
+  assert (Add : forall p0 h st1 wi, wh_add st h = Some (st1, wi) -> CRel p0 st ms ->
+                CRel p0 st1 ms /\ pristine st1 /\ UInv st1 /\ thr st1 = thr st /\ chs st1 = chs st).
+  { intros p0 h st1 wi E R0.
+    destruct (wh_add_core _ _ _ _ E) as [c1 [A [B [C1 [C2 [C3 [C4 [C5 [C6 [C7 C8]]]]]]]]]].
+    split; [|split; [|split; [|auto]]].
+    - apply (cr_steq _ st); auto. intro u. rewrite C1. auto.
+    - destruct P as [P0 P]. split; [lia|]. intros u Hu. rewrite C1. apply P. lia.
+    - intros u Hu. rewrite C1. apply U. lia. }
+  destruct c as [w|w|c0 x|c0|w|n| | | | | |c0|c0|p0|p0 x|p0| |x| | ]; cbn [begin_cmd pend_install pend_begin] in *.
+  - destruct (wreg st w) as [wi|]; [|inversion H; subst; apply Same; [intros e []|exact R]].
+    destruct (climb_start st wi (Some (HPlain w))) as [i|] eqn:E; inversion H; subst; clear H; [|apply Same; [cr_pl|exact R]].
+    apply climb_at_climb in E. destruct E as [k ->]. crb st t [IClimb k].
+  - destruct (wreg st w) as [wi|] eqn:Ew; [|inversion H; subst; apply Same; [intros e []|exact R]].
+    destruct (wbusy st w); inversion H; subst; clear H.
+    + crb st t [ILock MDL (LPush (wbit wi) (wbm wi) (HPlain w))].
+    + cbn. apply (cr_steq _ st); auto.
+  - destruct (Waker.creg (chs st c0)); inversion H; subst; clear H; [|apply Same; [intros e []|exact R]].
+    crb st t [ILock (MCh c0) (LChSend c0 x)].
+  - destruct (Waker.creg (chs st c0)); inversion H; subst; clear H; [|apply Same; [intros e []|exact R]].
+    crb st t [ILock (MCh c0) (LChClosed c0)].
+  - destruct (negb (is_main t) || wused st w || (1000000 <=? w) || (w <? 0)); [inversion H; subst; apply Same; [intros e []|exact R]|].
+    destruct (wh_add st (HPlain w)) as [[st1 wi]|] eqn:E; inversion H; subst; clear H; [|apply Same; [cr_pl|exact R]].
+    destruct (Add _ _ _ _ E R) as [R1 _]. eapply cr_msame; [|apply m13_plain_fold; cr_pl].
+    apply (cr_steq _ st1); auto.
+  - destruct (negb (is_main t)); [inversion H; subst; apply Same; [intros e []|exact R]|].
+    destruct (fill_loop (Z.to_nat n) st []) as [st1 ev1] eqn:E. inversion H; subst; clear H.
+    destruct (fill_loop_chs _ _ _ _ _ E) as [A B]. destruct (fill_loop_ghostev _ _ _ _ _ E ltac:(intros e0 [])) as [G1 _].
+    eapply cr_msame; [|apply m13_plain_fold; intros e He; destruct (G1 e He) as [X Y]; destruct e; cbn in *; try contradiction; try discriminate; exact Logic.I].
+    apply (cr_steq _ st); auto. intro u. rewrite B. auto.
+  - destruct (negb (is_main t)); inversion H; subst; clear H; [apply Same; [intros e []|exact R]|]. crb st t [ITopSwap; IRun].
+  - destruct (negb (is_main t)); [inversion H; subst; apply Same; [intros e []|exact R]|].
+    destruct (gnotified st); inversion H; subst; clear H; [|apply Same; [intros e []|exact R]]. crb st t [ITopSwap; IRun].
+  - destruct (negb (is_main t)); inversion H; subst; clear H; [apply Same; [intros e []|exact R]|].
+    cbn. apply cr_spawn; auto.
+  - destruct (negb (is_main t)); inversion H; subst; clear H; [apply Same; [intros e []|exact R]|]. crb st t [IJoin].
+  - destruct (negb (is_main t)); inversion H; subst; clear H; [apply Same; [intros e []|exact R]|]. crb st t [IIdle].
+  - (* CCNew *)
+    destruct (negb (is_main t) || cexists (chs st c0)) eqn:Eg; [inversion H; subst; apply Same; [intros e []|exact R]|].
+    apply orb_false_iff in Eg. destruct Eg as [Em Eex]. apply negb_false_iff in Em. unfold is_main in Em. apply Nat.eqb_eq in Em.
+    destruct (wh_add st (HChan c0)) as [[st1 wi]|] eqn:E; inversion H; subst; clear H; [|apply Same; [cr_pl|exact R]].
+    destruct (Add _ _ _ _ E R) as [R1 [_ [_ [T1 C1]]]].
+    eapply cr_msame; [|apply m13_plain_fold; cr_pl].
+    apply cr_cnew; auto; try (rewrite T1; congruence). rewrite C1. exact Eex.
+  - (* CCDrop *)
+    destruct (negb (is_main t) || negb (cguard (chs st c0))) eqn:Eg; inversion H; subst; clear H; [apply Same; [intros e []|exact R]|].
+    apply orb_false_iff in Eg. destruct Eg as [Em Egd]. apply negb_false_iff in Em, Egd. unfold is_main in Em. apply Nat.eqb_eq in Em.
+    cbn. apply cr_undrop; auto. apply (sh_ex st S c0). auto.
+  - destruct (negb (is_main t) || pexists (pps st p0)); [inversion H; subst; apply Same; [intros e []|exact R]|].
+    destruct (wh_add st (HPipe p0)) as [[st1 wi]|] eqn:E; inversion H; subst; clear H; [|apply Same; [cr_pl|exact R]].
+    destruct (Add _ _ _ _ E R) as [R1 [P1 [U1 _]]].
+    eapply cr_msame; [|apply m13_plain_fold; cr_pl].
+    apply cr_spawn; auto. apply (cr_steq _ st1); auto.
+  - destruct (negb (is_main t) || negb (phandle (pps st p0))); inversion H; subst; clear H; [apply Same; [intros e []|exact R]|]. crb st t [ILock (MPq p0) (LPqSend p0 x)].
+  - destruct (negb (is_main t) || negb (phandle (pps st p0))); inversion H; subst; clear H; [apply Same; [intros e []|exact R]|]. crb st t [ILock (MPq p0) (LPqCancelSet p0)].
+  - destruct (tpipe (th st t) <? 0); inversion H; subst; clear H; [apply Same; [intros e []|exact R]|]. crb st t [ILock (MPq (tpipe (th st t))) (LPqRecv (tpipe (th st t)))].
+  - destruct (tpipe (th st t) <? 0); inversion H; subst; clear H; [apply Same; [intros e []|exact R]|]. crb st t [ILock (MPq (tpipe (th st t))) (LPqLSend (tpipe (th st t)) x)].
+  - destruct (tpipe (th st t) <? 0); inversion H; subst; clear H; [apply Same; [intros e []|exact R]|]. crb st t [ILock (MPq (tpipe (th st t))) (LPqCancelGet (tpipe (th st t)))].
+  - destruct (tpipe (th st t) <? 0); inversion H; subst; clear H; [apply Same; [intros e []|exact R]|].
+    cbn. apply (cr_steq _ st); auto. intro u. split; [thr_simpl|split; [thr_simpl|intros _; thr_simpl]].
 Qed.
